@@ -50,7 +50,7 @@ package hmac
 // under the strategy's mutex and the mutex is released on every exit.
 //@ func (*HMACStrategy).Generate
 //@   requires c != nil && held[addr(c.Mutex)] == 0 && (forall m2 V :: held[m2] != 0 ==> mrank(m2) < mrank(addr(c.Mutex)))
-//@   modifies held
+//@   modifies acq, held
 //@   assume result2 == nil ==> result0 != "" && result1 != "" && result1 == hmacsig(result0) && authentic(c, result0)
 //@   assume result2 != nil ==> result0 == "" && result1 == ""
 //@   assert @call(RandomBytes)#1 [C19.hmac-generate-under-lock] held[addr(c.Mutex)] == 2
@@ -59,6 +59,7 @@ package hmac
 //@   assert @call(EncodeToString)#2 [C19.hmac-generate-under-lock] held[addr(c.Mutex)] == 2
 //@   assert @call(Sprintf)#1 [C19.hmac-generate-under-lock] held[addr(c.Mutex)] == 2
 //@   ensures [C19.locks-released] held == old(held)
+//@   ensures [C19.one-critical-section-per-table] forall m V :: acq[m] >= old(acq[m]) && acq[m] <= old(acq[m]) + ((m == addr(c.Mutex)) ? 1 : 0)
 
 //@ func (*HMACStrategy).GenerateHMACForString
 //@   trusted
